@@ -1,7 +1,198 @@
-//! C12 — stub (monitor not built yet)
-use crate::run::{Ctx, Report, Stats};
-pub fn run(_ctx: &Ctx) -> Report {
-    let mut r = Report::new(Stats::default(), "not built");
-    r.inconclusive.push("monitor-not-built".into());
-    r
+//! C12 — polynomial division: u = q*v + r, deg r < deg v, for every nonzero divisor.
+use crate::fl::{self, U};
+use crate::mon::common::*;
+use crate::rat::{CRat, Exact, Rat};
+use crate::rng::Rng;
+use crate::run::{catch, par_run, Ctx, Outcome, Report, Stats, StepBudget};
+use ohsl::verif::{self, Event};
+use ohsl::{Cmplx, Polynomial};
+use std::cell::Cell;
+use std::rc::Rc;
+
+const TAG: u64 = 0xC12;
+
+fn coeffs<T: Copy>(p: &Polynomial<T>) -> Vec<T> { (0..p.size()).map(|i| p[i]).collect() }
+
+/// run polydiv under a logical step budget delivered by hook H4; returns (outcome, steps seen)
+fn guarded<T, R>(budget: usize, f: impl FnOnce() -> R) -> (Outcome<R>, usize) where T: Sized {
+    let steps = Rc::new(Cell::new(0usize));
+    let s2 = steps.clone();
+    verif::set_sink(Box::new(move |ev| {
+        if let Event::Step { site: "polydiv", count } = ev {
+            s2.set(count + 1);
+            if count > budget { std::panic::panic_any(StepBudget); }
+        }
+    }));
+    let out = catch(f);
+    verif::clear_sink();
+    (out, steps.get())
+}
+
+fn degree_of<T: PartialEq>(c: &[T], zero: T) -> Option<usize> { (0..c.len()).rev().find(|&i| c[i] != zero) }
+
+fn judge_exact<E: Exact>(st: &mut Stats, rng: &mut Rng, du: usize, dv: usize, rv: &dyn Fn(&mut Rng) -> E, zeros_inside: bool) {
+    st.next_case();
+    let nz = |rng: &mut Rng| { let x = rv(rng); if x.is_zero_e() { E::from_int(1) } else { x } };
+    let mut u: Vec<E> = (0..=du).map(|_| if zeros_inside && rng.chance(0.3) { E::zero() } else { rv(rng) }).collect();
+    let mut v: Vec<E> = (0..=dv).map(|_| if zeros_inside && rng.chance(0.3) { E::zero() } else { rv(rng) }).collect();
+    u[du] = nz(rng); v[dv] = nz(rng);
+    // occasionally make the division exact (u = a*v) so that r must vanish
+    if rng.chance(0.2) && du >= dv { let a: Vec<E> = (0..=du - dv).map(|_| nz(rng)).collect(); u = vec![E::zero(); du + 1]; for i in 0..a.len() { for j in 0..v.len() { u[i + j] = u[i + j] + a[i] * v[j]; } } }
+    let desc = || format!("T={} u={:?} v={:?}", E::NAME, u, v);
+    let (pu, pv) = (Polynomial::new(u.clone()), Polynomial::new(v.clone()));
+    let budget = 4 * (du + 2);
+    let (out, steps) = guarded::<E, _>(budget, || pu.polydiv(&pv));
+    st.eval();
+    st.max("steps_over_needed", steps as f64 / ((du as f64 - dv as f64).max(0.0) + 1.0));
+    match out {
+        Outcome::Overflow => st.count("skipped:rat-overflow"),
+        Outcome::Budget => st.violation(&format!("C12:polydiv:{}:spins", E::NAME), format!("loop exceeded the logical budget of {} passes (exact division needs {}); {}", budget, du.saturating_sub(dv) + 1, desc())),
+        Outcome::Panic { msg, loc } => st.violation(&format!("C12:polydiv:{}:panic", E::NAME), format!("panic '{}' at {}; {}", msg, loc, desc())),
+        Outcome::Ok(Err(e)) => st.violation(&format!("C12:polydiv:{}:err-on-valid-divisor", E::NAME), format!("Err({:?}); {}", e, desc())),
+        Outcome::Ok(Ok((q, r))) => {
+            let (qc, rc) = (coeffs(&q), coeffs(&r));
+            // u == q*v + r exactly (coefficientwise, shorter side padded with zeros)
+            let mut w = vec![E::zero(); (qc.len() + v.len()).max(rc.len()).max(u.len()) + 1];
+            let prod = catch(|| { let mut w2 = w.clone(); for i in 0..qc.len() { for j in 0..v.len() { w2[i + j] = w2[i + j] + qc[i] * v[j]; } } for i in 0..rc.len() { w2[i] = w2[i] + rc[i]; } w2 });
+            match prod { Outcome::Ok(w2) => w = w2, _ => { st.count("skipped:rat-overflow"); return; } }
+            let ident = (0..w.len()).all(|i| w[i] == if i < u.len() { u[i] } else { E::zero() });
+            let dr = degree_of(&rc, E::zero());
+            let deg_ok = match dr { None => true, Some(d) => d < dv };
+            if !ident { st.violation(&format!("C12:polydiv:{}:identity", E::NAME), format!("q={:?} r={:?}: q*v+r = {:?} != u; {}", qc, rc, w, desc())); }
+            if !deg_ok { st.violation(&format!("C12:polydiv:{}:remainder-degree", E::NAME), format!("q={:?} r={:?}: deg r = {:?} >= deg v = {}; {}", qc, rc, dr, dv, desc())); }
+        }
+    }
+    st.count(&format!("cases:{}:du{}:dv{}", E::NAME, du, dv));
+    let mut h = hash_str(E::NAME); for x in u.iter().chain(&v) { h = hmix(h, x.hash_u64()); }
+    st.nontrivial(h);
+    st.sample(|| desc());
+}
+
+fn judge_f64(st: &mut Stats, rng: &mut Rng, du: usize, dv: usize, kind: u64) {
+    st.next_case();
+    let gen = |rng: &mut Rng| -> f64 { match kind { 0 => rng.int(-9, 9) as f64, 1 => rng.sym(), _ => rng.sym() * rng.logpos(1e-3, 1e3) } };
+    let mut u: Vec<f64> = (0..=du).map(|_| if rng.chance(0.1) { 0.0 } else { gen(rng) }).collect();
+    let mut v: Vec<f64> = (0..=dv).map(|_| if rng.chance(0.1) { 0.0 } else { gen(rng) }).collect();
+    if u[du] == 0.0 { u[du] = 1.5; }
+    // integer class: divisor leading coefficient +-1 or +-2^k so that the exact quotient is representable
+    v[dv] = if kind == 0 { *rng.pick(&[1.0, -1.0, 2.0, -0.5]) } else if v[dv] == 0.0 { 0.75 } else { v[dv] };
+    let desc = || format!("T=f64 kind={} u={:?} v={:?}", ["integer", "general", "graded"][kind as usize], u, v);
+    let (pu, pv) = (Polynomial::new(u.clone()), Polynomial::new(v.clone()));
+    let budget = 4 * (du + 2);
+    let (out, steps) = guarded::<f64, _>(budget, || pu.polydiv(&pv));
+    st.eval();
+    st.max("f64:steps_over_needed", steps as f64 / ((du as f64 - dv as f64).max(0.0) + 1.0));
+    match out {
+        Outcome::Budget => st.violation("C12:polydiv:f64:spins", format!("loop exceeded the logical budget of {} passes; {}", budget, desc())),
+        Outcome::Panic { msg, loc } => st.violation("C12:polydiv:f64:panic", format!("panic '{}' at {}; {}", msg, loc, desc())),
+        Outcome::Ok(Err(e)) => st.violation("C12:polydiv:f64:err-on-valid-divisor", format!("Err({:?}) after {} passes; {}", e, steps, desc())),
+        Outcome::Ok(Ok((q, r))) => {
+            let (qc, rc) = (coeffs(&q), coeffs(&r));
+            let len = (qc.len() + v.len()).max(rc.len()).max(u.len()) + 1;
+            let mut w = vec![fl::DD::ZERO; len];
+            let mut mag = vec![0.0f64; len];
+            for i in 0..qc.len() { for j in 0..v.len() { w[i + j] = w[i + j] + fl::DD::prod(qc[i], v[j]); mag[i + j] += (qc[i] * v[j]).abs(); } }
+            for i in 0..rc.len() { w[i] = w[i] + fl::DD::from(rc[i]); mag[i] += rc[i].abs(); }
+            let err = (0..len).map(|i| (w[i] - fl::DD::from(if i < u.len() { u[i] } else { 0.0 })).f().abs()).fold(0.0f64, f64::max);
+            let scale = u.iter().fold(0.0f64, |m, x| m.max(x.abs())).max(mag.iter().fold(0.0f64, |m, x| m.max(*x)));
+            let tol = if kind == 0 { 0.0 } else { 64.0 * (du as f64 + 1.0) * U * scale };
+            if kind != 0 && scale > 0.0 { st.max("f64:identity_err_over_tol", err / tol); }
+            let finite = qc.iter().chain(&rc).all(|x| x.is_finite());
+            if !finite || !(err <= tol) { st.violation("C12:polydiv:f64:identity", format!("q={:?} r={:?}: |u-(q*v+r)| = {:e} > {:e}; {}", qc, rc, err, tol, desc())); }
+            let dr = degree_of(&rc, 0.0);
+            if !(match dr { None => true, Some(d) => d < dv }) { st.violation("C12:polydiv:f64:remainder-degree", format!("q={:?} r={:?}: deg r = {:?} >= deg v = {}; {}", qc, rc, dr, dv, desc())); }
+        }
+        Outcome::Overflow => {}
+    }
+    st.count(&format!("cases:f64:{}", ["integer", "general", "graded"][kind as usize]));
+    let mut h = hash_str("f64"); for x in u.iter().chain(&v) { h = hmix(h, x.to_bits()); }
+    st.nontrivial(h);
+}
+
+fn judge_cmplx(st: &mut Stats, rng: &mut Rng, du: usize, dv: usize) {
+    st.next_case();
+    let g = |rng: &mut Rng| Cmplx::new(rng.sym(), rng.sym());
+    let u: Vec<Cmplx> = (0..=du).map(|_| g(rng)).collect();
+    let mut v: Vec<Cmplx> = (0..=dv).map(|_| g(rng)).collect();
+    if v[dv].abs() < 0.05 { v[dv] = Cmplx::new(0.5, -0.5); }
+    let desc = || format!("T=Cmplx u={:?} v={:?}", u, v);
+    let (pu, pv) = (Polynomial::new(u.clone()), Polynomial::new(v.clone()));
+    let budget = 4 * (du + 2);
+    let (out, steps) = guarded::<Cmplx, _>(budget, || pu.polydiv(&pv));
+    st.eval();
+    match out {
+        Outcome::Budget => st.violation("C12:polydiv:Cmplx:spins", format!("loop exceeded the logical budget of {} passes; {}", budget, desc())),
+        Outcome::Panic { msg, loc } => st.violation("C12:polydiv:Cmplx:panic", format!("panic '{}' at {}; {}", msg, loc, desc())),
+        Outcome::Ok(Err(e)) => st.violation("C12:polydiv:Cmplx:err-on-valid-divisor", format!("Err({:?}) after {} passes; {}", e, steps, desc())),
+        Outcome::Ok(Ok((q, r))) => {
+            let (qc, rc) = (coeffs(&q), coeffs(&r));
+            let len = (qc.len() + v.len()).max(rc.len()).max(u.len()) + 1;
+            let mut w = vec![fl::CDD::ZERO; len];
+            let mut mag = vec![0.0f64; len];
+            for i in 0..qc.len() { for j in 0..v.len() { w[i + j] = w[i + j] + fl::CDD::from(qc[i]) * fl::CDD::from(v[j]); mag[i + j] += fl::cabs(qc[i]) * fl::cabs(v[j]); } }
+            for i in 0..rc.len() { w[i] = w[i] + fl::CDD::from(rc[i]); mag[i] += fl::cabs(rc[i]); }
+            let err = (0..len).map(|i| (w[i] - if i < u.len() { fl::CDD::from(u[i]) } else { fl::CDD::ZERO }).abs()).fold(0.0f64, f64::max);
+            let scale = u.iter().fold(0.0f64, |m, x| m.max(fl::cabs(*x))).max(mag.iter().fold(0.0f64, |m, x| m.max(*x)));
+            let tol = 64.0 * (du as f64 + 1.0) * U * scale;
+            st.max("Cmplx:identity_err_over_tol", err / tol);
+            if !(err <= tol) { st.violation("C12:polydiv:Cmplx:identity", format!("q={:?} r={:?}: |u-(q*v+r)| = {:e} > {:e}; {}", qc, rc, err, tol, desc())); }
+            let dr = degree_of(&rc, Cmplx::new(0.0, 0.0));
+            if !(match dr { None => true, Some(d) => d < dv }) { st.violation("C12:polydiv:Cmplx:remainder-degree", format!("q={:?} r={:?}: deg r = {:?} >= deg v = {}; {}", qc, rc, dr, dv, desc())); }
+        }
+        Outcome::Overflow => {}
+    }
+    st.count("cases:Cmplx");
+    let mut h = hash_str("Cmplx"); for x in u.iter().chain(&v) { h = hmix(hmix(h, x.real.to_bits()), x.imag.to_bits()); }
+    st.nontrivial(h);
+}
+
+/// empty / all-zero divisors must be reported as Err (never panic), for every dividend
+fn judge_zero_divisor(st: &mut Stats, rng: &mut Rng) {
+    st.next_case();
+    let du = rng.usize(0, 10);
+    let u: Vec<Rat> = (0..=du).map(|_| Rat::int(rng.int(-9, 9))).collect();
+    let zl = rng.usize(0, 6);
+    let v: Vec<Rat> = vec![Rat::ZERO; zl]; // zl == 0: the empty polynomial
+    let (pu, pv) = (Polynomial::new(u.clone()), Polynomial::new(v.clone()));
+    let (out, _) = guarded::<Rat, _>(50, || pu.polydiv(&pv));
+    st.eval();
+    match out {
+        Outcome::Ok(Err(_)) => st.count("zero-divisor:Err"),
+        Outcome::Ok(Ok((q, r))) => st.violation("C12:polydiv:zero-divisor-accepted", format!("u={:?} v={:?} returned q={:?} r={:?}", u, v, coeffs(&q), coeffs(&r))),
+        o => st.violation("C12:polydiv:zero-divisor-panic", format!("u={:?} v={:?}: {}", u, v, o.describe())),
+    }
+    // f64 flavour, including negative zero coefficients
+    let vf: Vec<f64> = (0..zl).map(|_| if rng.bool() { 0.0 } else { -0.0 }).collect();
+    let uf: Vec<f64> = u.iter().map(|x| x.to_f64()).collect();
+    let (out, _) = guarded::<f64, _>(50, || Polynomial::new(uf.clone()).polydiv(&Polynomial::new(vf.clone())));
+    st.eval();
+    match out {
+        Outcome::Ok(Err(_)) => st.count("zero-divisor:Err"),
+        Outcome::Ok(Ok(_)) => st.violation("C12:polydiv:zero-divisor-accepted", format!("u={:?} v={:?} (f64)", uf, vf)),
+        o => st.violation("C12:polydiv:zero-divisor-panic", format!("u={:?} v={:?} (f64): {}", uf, vf, o.describe())),
+    }
+}
+
+pub fn run(ctx: &Ctx) -> Report {
+    let pairs = 11u64 * 7; // deg u 0..10 x deg v 0..6
+    let reps = ctx.vol(1500, 50_000);
+    // hook liveness: the polydiv step hook must fire (otherwise the "never spins" half is unobserved)
+    let (o, steps) = guarded::<Rat, _>(100, || Polynomial::new(vec![Rat::int(1), Rat::int(2), Rat::int(3)]).polydiv(&Polynomial::new(vec![Rat::int(1), Rat::int(1)])));
+    let hook_live = o.is_ok() && steps >= 2;
+    let stats = par_run(ctx, TAG, pairs, |p, rng, st| {
+        let (du, dv) = ((p / 7) as usize, (p % 7) as usize);
+        for k in 0..reps {
+            judge_exact::<Rat>(st, rng, du, dv, &|r| if r.chance(0.2) { Rat::new(r.int(-9, 9) as i128, r.int(1, 5) as i128) } else { Rat::int(r.int(-9, 9)) }, k % 3 == 0);
+            judge_exact::<CRat>(st, rng, du, dv, &|r| CRat::new(Rat::int(r.int(-5, 5)), Rat::int(r.int(-5, 5))), k % 3 == 1);
+            judge_f64(st, rng, du, dv, k % 3);
+            judge_cmplx(st, rng, du, dv);
+            if k % 4 == 0 { judge_zero_divisor(st, rng); }
+        }
+    });
+    let mut rep = Report::new(stats,
+        "all 77 degree pairs (deg u 0..10, deg v 0..6, incl. constants and divisors longer than the dividend) x random coefficients over Rat (fractions), CRat, integer-valued f64 (divisor leading coefficient +-1, 2, -1/2: exact), general f64, f64 with coefficient ratios up to 1e6, Complex<f64>; zeros inside, exact divisions (u=a*v) planted in 20% of exact cases; empty and all-zero divisors (+-0.0) of length 0..6. Judged: Ok, u==q*v+r (exact / 64(deg u+1)u relative in double-double), r=0 or deg r<deg v, no panic, loop passes <= 4(deg u+2) (hook H4, logical steps). Every case non-trivial; distinct = distinct (type,u,v) hashes");
+    rep.assumptions = vec!["divisors with a zero leading coefficient that are not identically zero are not generated (the property does not constrain them)".into(), "spin detection is decided on the loop counter delivered by hook H4, never on wall-clock".into()];
+    rep.min_nontrivial = 2000;
+    if !hook_live { rep.inconclusive.push("hook-H4-polydiv-step-silent".into()); }
+    rep
 }
